@@ -380,7 +380,7 @@ void AbstractDiscreteDistribution::discretizeEqualProportions()
       values[i] = (bounds_[i - 1] + bounds_[i]) / 2;
     }
 
-    values[numberOfCategories_ - 1] = (intMinMax_->getUpperBound() + bounds_[numberOfCategories_ - 1]) / 2;
+    values[numberOfCategories_ - 1] = (intMinMax_->getUpperBound() + bounds_[numberOfCategories_ - 2]) / 2;
   }
 
   // adjustments near the boundaries of the domain, according to the precision chosen
